@@ -37,7 +37,7 @@ def run(ctx):
     r = ctx.model_check("codec", "MC_HexJson", "MC_HexJson.cfg",
                         constants={"HL": 1, "MaxStr": hs, "FreeLen": hs, "Dev": hs}, coverage=True,
                         timeout=ctx.pick(400, 2400), label="HexJson HL=1")
-    ctx.check_coverage(r, ["Type", "Judge", "MarshalB"])
+    ctx.check_coverage(r, ["Type", "Judge", "JudgeNull", "MarshalB"])
     ctx.exhaustive = True
 
     # 2. cases for the real code (W = 8 / HW = 4 instance): int64/uint64 are N = 8 bytes, inputs up to 10 bytes
